@@ -74,6 +74,10 @@ def make_world():
         w.must(['cur', c])
         (minor,) = functional[c]['minor']
         w.sf[c] = F(1, 10 ** minor)
+    # prices: a type without reference unit whose units have no common scale
+    w.must(['dtype', 'PPM', [['Money', 1], ['Mass', -1]], None, None])
+    for c, m in (('EUR', 'kg'), ('USD', 'kg'), ('USD', 'g')):
+        w.must(['unit', 'PPM', f'{c}/{m}', ['derive', [c, m]]])
     return w
 
 
@@ -188,6 +192,32 @@ def run_parse_convert(w, sym, sym2, code, st=None):
     return out
 
 
+@guarded('C18')
+def run_parse_unconvertible(w, sym, sym2, st=None):
+    Q = w.q
+    u, u2 = w.units[sym], w.units[sym2]
+    cls = u.qty_cls
+    out = []
+    for code in ('i:5', 'F:7/3'):
+        s = str(cls(O.dec(code), u))
+        for fname, f in (('generic', lambda: Q.Quantity(s, u2)),
+                         ('own', lambda: cls(s, u2))):
+            if st is not None:
+                st.transitions += 1
+                st.evaluations += 1
+            try:
+                r = f()
+            except Q.QuantityError:
+                continue
+            except Exception as exc:
+                r = exc
+            out.append(('C18:text:explicit-unit:unconvertible',
+                        f"{fname}({s!r}, {sym2}) = {r!r}; {sym} and {sym2} "
+                        "have no common scale and no converter is "
+                        "registered"))
+    return out
+
+
 BAD_NUM = ['', 'abc', '1..5', '--1', '1e', '1/0', 'inf', 'nan', '1/', '/2',
            '1,5', '0x10', '1/2/3', '-', '1e1.5', 'NaN', '-inf', '1 /2',
            '١٢'.replace('١٢', 'one'), '5/0.0', '1/-0']
@@ -254,6 +284,16 @@ def part_units(syms, nums):
                                                       st):
                         st.violation(sig, msg, {'parse_convert':
                                                 [sym, sym2, code]})
+        elif tm.name in ('PPM', 'NR'):
+            # no common scale, no converter: text with an explicit unit
+            # of another kind is no quantity
+            for sym2 in tm.units:
+                if sym2 == sym:
+                    continue
+                st.paths += 1
+                for sig, msg in run_parse_unconvertible(w, sym, sym2, st):
+                    st.violation(sig, msg, {'parse_unconvertible':
+                                            [sym, sym2]})
     return st
 
 
@@ -279,6 +319,8 @@ def replay(case):
         return run_construct(w, *case['construct'])
     if 'parse_convert' in case:
         return run_parse_convert(w, *case['parse_convert'])
+    if 'parse_unconvertible' in case:
+        return run_parse_unconvertible(w, *case['parse_unconvertible'])
     return run_malformed(w, *case['malformed'])
 
 
@@ -286,7 +328,8 @@ def run(tier, seed):
     total = Stats()
     syms = list(O.UNIT_REF) + ['Ω', 'kΩ', 's2', 'kΩ·s2', '%', '‰', 'µx',
                                'x y', '\u2126', 'k\u2126', '\u212b',
-                               'e\u0301m', 'zz ', ' zy', 'a  b'] + CURRENCIES
+                               'e\u0301m', 'zz ', ' zy', 'a  b',
+                               'EUR/kg', 'USD/kg', 'USD/g'] + CURRENCIES
     nums = NUMS
     total.merge(pmap(part_units, [syms[i::16] for i in range(16)], (nums,),
                      fresh=True))
